@@ -23,6 +23,10 @@ func (r rng) pick(xs ...int64) int64    { return xs[r.Intn(len(xs))] }
 func (r rng) chance(p float64) bool     { return r.Float64() < p }
 func (r rng) pick2(xs ...string) string { return xs[r.Intn(len(xs))] }
 
+// curSeed: the seed of the Generate call in progress, for generators that draw a variant from a stream of its own (so that
+// adding the variant leaves the scenarios of the main stream as they were)
+var curSeed int64
+
 var families = []string{"G1", "G2", "G3", "G4", "G5", "G6", "G7", "G8", "G9"}
 
 // Generate builds n scenarios per requested family, all derived from seed.
@@ -32,6 +36,7 @@ func Generate(fams string, seed int64, n int, t *testing.T) []*Scenario {
 		want = strings.Split(fams, ",")
 	}
 	var out []*Scenario
+	curSeed = seed
 	for _, f := range want {
 		r := rng{rand.New(rand.NewSource(seed*1000003 + int64(len(f))*7919 + int64(f[len(f)-1])))}
 		var g func(rng, int, *testing.T) []*Scenario
@@ -551,6 +556,9 @@ func opTimes(trace []byte, idx int) ([][3]int64, [][]int) {
 // exactly at its instants; for each stop variant. The base run tells where the calls are.
 func genG7(r rng, n int, t *testing.T) []*Scenario {
 	var out []*Scenario
+	// one in twelve from a stream of their own (genOutlast): the scenarios of the main stream stay what they were
+	extra := n / 12
+	n -= extra
 	for len(out) < n {
 		h := r.pick(200*ms, 400*ms, 1000*ms)
 		ttl := h * r.pick(3, 4)
@@ -569,44 +577,6 @@ func genG7(r rng, n int, t *testing.T) []*Scenario {
 				Action{At: t1 + r.between(ms, 2*h), Do: "validate_or_demote", I: "n1"},
 				Action{On: r.pick2("log:17", "log:38", "ldur", "flag:0", "trans:3"), I: "n1", Do: r.pick2("stop", "stop_ctx"), SyncNs: r.pick(0, 0, 1)})
 			sc.Until = t1 + 12*h
-			sc.Grid = h
-			out = append(out, sc)
-			continue
-		}
-		if r.chance(0.08) {
-			// a call that outlasts the stop's patience: one kind of store call of one instance is in transit for longer than
-			// Stop waits for the background goroutines (5 s), and the stop is made while such a call is in flight; the answer
-			// arrives after the stop call has returned, and whatever the goroutine does next is done by a stopped election
-			ninst = int(r.between(2, 3))
-			sc := base(r, ninst, h, ttl)
-			sc.Env = []string{"stoppoint"}
-			sc.Latency = [2]int64{ms, 3 * ms}
-			startAll(sc, r, h)
-			victim := sc.Instances[r.Intn(ninst)].ID
-			kind := r.pick2("get", "get", "create", "update")
-			if r.chance(0.6) {
-				// the victim may take the record over: it outranks the others
-				for i := range sc.Instances {
-					sc.Instances[i].Priority = 1
-					if sc.Instances[i].ID == victim {
-						sc.Instances[i].Priority, sc.Instances[i].Takeover = 5, true
-					}
-				}
-			}
-			if r.chance(0.3) {
-				sc.Actions = append(sc.Actions, Action{At: r.between(2*h, 4*h), Do: r.pick2("ext_del", "expire"), Key: "g"})
-			}
-			sc.Rules = append(sc.Rules, Rule{Inst: victim, Kind: kind, FromT: r.between(0, 3*h), Pre: r.between(5*sec+h, 8*sec), Post: ms})
-			stop := Action{On: fmt.Sprintf("issue:%d", map[string]int{"create": kCreate, "update": kUpdate, "get": kGet}[kind]), OnI: victim,
-				OnNth: int(r.between(0, 2)), I: victim, Do: "stop"}
-			if r.chance(0.4) {
-				stop.Do, stop.Delete, stop.Wait, stop.Timeout = "stop_ctx", r.chance(0.5), r.chance(0.5), r.pick(0, 0, h/2, 2*sec)
-			}
-			if r.chance(0.2) {
-				stop.Then = &Action{After: r.pick(0, 1, h/2), Do: "start"}
-			}
-			sc.Actions = append(sc.Actions, stop)
-			sc.Until = 8*h + 16*sec
 			sc.Grid = h
 			out = append(out, sc)
 			continue
@@ -715,6 +685,52 @@ func genG7(r rng, n int, t *testing.T) []*Scenario {
 			c.Until = sc.Until + 6*sec
 			out = append(out, &c)
 		}
+	}
+	return append(out, genOutlast(rng{rand.New(rand.NewSource(curSeed*1000003 + 424243))}, extra)...)
+}
+
+// genOutlast (part of G7, drawn from a stream of its own): a call that outlasts the stop's patience.
+func genOutlast(r rng, n int) []*Scenario {
+	var out []*Scenario
+	for len(out) < n {
+		h := r.pick(200*ms, 400*ms, 1000*ms)
+		ttl := h * r.pick(3, 4)
+		var ninst int
+		// a call that outlasts the stop's patience: one kind of store call of one instance is in transit for longer than
+		// Stop waits for the background goroutines (5 s), and the stop is made while such a call is in flight; the answer
+		// arrives after the stop call has returned, and whatever the goroutine does next is done by a stopped election
+		ninst = int(r.between(2, 3))
+		sc := base(r, ninst, h, ttl)
+		sc.Env = []string{"stoppoint"}
+		sc.Latency = [2]int64{ms, 3 * ms}
+		startAll(sc, r, h)
+		victim := sc.Instances[r.Intn(ninst)].ID
+		kind := r.pick2("get", "get", "create", "update")
+		if r.chance(0.6) {
+			// the victim may take the record over: it outranks the others
+			for i := range sc.Instances {
+				sc.Instances[i].Priority = 1
+				if sc.Instances[i].ID == victim {
+					sc.Instances[i].Priority, sc.Instances[i].Takeover = 5, true
+				}
+			}
+		}
+		if r.chance(0.3) {
+			sc.Actions = append(sc.Actions, Action{At: r.between(2*h, 4*h), Do: r.pick2("ext_del", "expire"), Key: "g"})
+		}
+		sc.Rules = append(sc.Rules, Rule{Inst: victim, Kind: kind, FromT: r.between(0, 3*h), Pre: r.between(5*sec+h, 8*sec), Post: ms})
+		stop := Action{On: fmt.Sprintf("issue:%d", map[string]int{"create": kCreate, "update": kUpdate, "get": kGet}[kind]), OnI: victim,
+			OnNth: int(r.between(0, 2)), I: victim, Do: "stop"}
+		if r.chance(0.4) {
+			stop.Do, stop.Delete, stop.Wait, stop.Timeout = "stop_ctx", r.chance(0.5), r.chance(0.5), r.pick(0, 0, h/2, 2*sec)
+		}
+		if r.chance(0.2) {
+			stop.Then = &Action{After: r.pick(0, 1, h/2), Do: "start"}
+		}
+		sc.Actions = append(sc.Actions, stop)
+		sc.Until = 8*h + 16*sec
+		sc.Grid = h
+		out = append(out, sc)
 	}
 	return out
 }
